@@ -16,11 +16,12 @@ type job struct {
 
 // HarnessSpec describes one harness entry to explore.
 type HarnessSpec struct {
-	Name   string
-	Fn     *ssa.Function
-	Params map[string]int
-	Setup  func(x *Explorer)
-	Solver string // primary solver kind for this harness ("" = pool default)
+	Name     string
+	Fn       *ssa.Function
+	Params   map[string]int
+	Setup    func(x *Explorer)
+	Solver   string // primary solver kind for this harness ("" = pool default)
+	valTaken int64  // validation samples collected so far (atomic)
 }
 
 // Result aggregates the outcome of exploring one harness.
@@ -43,6 +44,7 @@ type Result struct {
 	Samples      []string
 	Wall         time.Duration
 	ForkSites    map[string]int
+	ValSamples   []*ValSample
 }
 
 func newResult(s *HarnessSpec) *Result {
@@ -79,6 +81,9 @@ func (r *Result) absorb(x *Explorer) {
 		}
 		addMap(r.ForkSites, x.ForkSites)
 	}
+	if len(r.ValSamples) < 4 {
+		r.ValSamples = append(r.ValSamples, x.ValSamples...)
+	}
 	r.Merged += x.merged
 	r.DomDecided += x.DomDecided
 	r.CacheHits += x.CacheHits
@@ -98,6 +103,7 @@ type Pool struct {
 	CrossKinds []string
 	Profile    bool
 	Primary    string
+	ValWant    int
 
 	mu      sync.Mutex
 	cond    *sync.Cond
@@ -211,6 +217,8 @@ func (p *Pool) worker() {
 			x.ForkSites = map[string]int{}
 		}
 		x.Params = j.harness.Params
+		x.ValWant = p.ValWant
+		x.valCounter = &j.harness.valTaken
 		x.Deadline = p.Deadline
 		if b, ok := builders[j.harness]; ok {
 			x.B = b
